@@ -27,7 +27,7 @@ def special_scripts(rng, tier):
     from common import VERIF
     sys.path.insert(0, os.path.join(VERIF, "gen"))
     import special
-    return special.ref_retarget_scripts(rng, 30 if tier == "quick" else 1500) + special.multi_frame_removal_scripts(rng, 30 if tier == "quick" else 1500)
+    return special.ref_retarget_scripts(rng, 30 if tier == "quick" else 1500) + special.multi_frame_removal_scripts(rng, 30 if tier == "quick" else 1500) + special.away_scripts(rng, 20 if tier == "quick" else 1000)
 
 
 def run(tier, seed, replay):
